@@ -314,6 +314,11 @@ class AI:
                 return v[2][i] if i < len(v[2]) else ("sym", "badfield")
             if v[0] == "sym":
                 return ("sym", "%s.%d" % (v[1], i))
+            if v[0] == "rec":
+                for fi, fv in v[2]:
+                    if fi == i:
+                        return fv
+                return ("sym", "%s.%d" % (v[1], i))
             return ("sym", "proj?%s.%d" % (v[0], i))
         if k == "dc":
             if v[0] == "enum":
@@ -359,6 +364,10 @@ class AI:
                     cell, path = v[1], v[2]
                 elif v[0] == "sym":
                     cell, path = ("X", v[1]), ()
+                elif v[0] == "str":
+                    cname = "str:" + v[1]
+                    st.ext[cname] = v
+                    cell, path = ("X", cname), ()
                 elif v[0] == "enum" and v[3]:
                     # Box/Rc-like wrappers built concretely: treat first field as the pointee holder
                     cell, path = ("X", "box:" + repr(v)[:60]), ()
@@ -412,6 +421,13 @@ class AI:
                 exp = self.expand_sym(root, ty, None)
                 if exp is not None:
                     return self.write_into(st, exp, path, newv, None)
+            if root[0] in ("sym", "rec"):
+                # struct of unknown layout: remember the overridden fields over the unknown base
+                base = root[1]
+                fields = dict(root[2]) if root[0] == "rec" else {}
+                old = fields.get(i, ("sym", "%s.%d" % (base, i)))
+                fields[i] = self.write_into(st, old, path[1:], newv, None)
+                return ("rec", base, tuple(sorted(fields.items())))
             return self._havoc(root)
         if p[0] == "dc":
             if root[0] == "enum" and root[2] == p[1]:
@@ -826,6 +842,20 @@ class AI:
                     d = a["variants"][ev[2]]["discr"] if a else ev[2]
                     outs.append((s2, ("int", d)))
                 return outs
+        if path in ("std::option::Option::is_some", "std::option::Option::is_none", "std::result::Result::is_ok",
+                    "std::result::Result::is_err") and args:
+            ty = self.operand_ty(frame, term["args"][0])
+            v = self.deref_val(st, args[0])
+            alts = self.fork_enum(st, v, ty.strip_refs() if ty is not None else None) if v is not None else None
+            if alts is not None:
+                outs = []
+                for s2, ev in alts:
+                    if ev[1] == OPTION:
+                        r = (ev[2] == 1) == path.endswith("is_some")
+                    else:
+                        r = (ev[2] == 0) == path.endswith("is_ok")
+                    outs.append((s2, ("bool", r)))
+                return outs
         if path in ("std::mem::replace",) and len(args) == 2:
             v = self.resolve(st, args[0])
             if v[0] == "ref":
@@ -864,6 +894,16 @@ class AI:
                 rv = self.resolve(st, v)
                 if rv[0] == "ref":
                     self.write_ref(st, rv, self.sym(st, "%s:hv%d" % (site, i)))
+            elif t["k"] == "closure":
+                # a closure passed by value may write through the &mut it captured
+                rv = self.resolve(st, v)
+                ups = t.get("up", [])
+                if rv[0] == "closure":
+                    for j, uv in enumerate(rv[2]):
+                        ut = self.cr.types[ups[j]] if j < len(ups) else None
+                        ruv = self.resolve(st, uv)
+                        if ut is not None and ut["k"] == "ref" and ut.get("m") == 1 and ruv[0] == "ref":
+                            self.write_ref(st, ruv, self.sym(st, "%s:hv%d.%d" % (site, i, j)))
 
     def do_call(self, st, term):
         """-> list of successor states"""
